@@ -867,6 +867,8 @@ where
             debug!("{} dir exists", path.display());
         } else {
             debug!("creating dir for corrupted files: {}", path.display());
+            #[cfg(feature = "pearl_verif")]
+            let _verif_io = crate::verif::io::on_mkdir(&corrupted_dir_path)?;
             create_dir(corrupted_dir_path).await.with_context(|| {
                 format!(
                     "failed to create dir for corrupted files: {}",
@@ -874,6 +876,8 @@ where
                 )
             })?;
         }
+        #[cfg(feature = "pearl_verif")]
+        let _verif_io = crate::verif::io::on_rename(path, &corrupted_path)?;
         tokio::fs::rename(&path, &corrupted_path)
             .await
             .with_context(|| {
@@ -889,6 +893,8 @@ where
     async fn remove_index_by_blob_path(path: &Path) -> Result<()> {
         let index_path = path.with_extension(blob::BLOB_INDEX_FILE_EXTENSION);
         if index_path.exists() {
+            #[cfg(feature = "pearl_verif")]
+            let _verif_io = crate::verif::io::on_remove(&index_path)?;
             tokio::fs::remove_file(&index_path)
                 .await
                 .with_context(|| anyhow!(format!("failed to remove file {:?}", index_path)))?;
